@@ -144,4 +144,12 @@ def netHypsB (nw : Network) : Bool :=
     (!(nw.node i).isDepot || (nw.node i).dist == 0) &&
     (match nw.nodeDur i with | .len _ => true | .inf => false))
 
+/-- hypothesis of `C05_end_is_successors_start`, as a check on a loaded network: the end-depot node
+    that belongs to the depot of a start-depot node is a node of that same depot (the second conjunct
+    covers indices outside the node table, which read the default node) -/
+def depotNodesB (nw : Network) : Bool :=
+  nw.allIdx.all (fun n => !(nw.node n).isStartDepot ||
+    nw.depotIdxOf (nw.endDepotNodeOf (nw.depotIdxOf n)) == nw.depotIdxOf n) &&
+  ((nw.node (nw.endDepotNodeOf (default : Node).depot)).depot == (default : Node).depot)
+
 end RSSched.Spec
